@@ -38,8 +38,8 @@ static void gen_table(Rng& r, Gen& g, uint64_t maxcoef, const std::string& profi
   g.ord.assign(nd, 0);
   int pat = r.range(0, 9);
   if (pat < 4) { int k = r.range(0, 5); for (auto& o : g.ord) o = k; }
-  else if (pat < 5 && (nd == 6 || profile == "C03")) { nd = 6; g.ord = {2, 2, 2, 3, 2, 2}; }
-  else if (pat < 6 && (nd == 6 || profile == "C03")) { nd = 6; g.ord = {2, 2, 2, 5, 2, 2}; }
+  else if (pat < 5 && (nd == 6 || profile == "C03" || r.coin())) { nd = 6; g.ord = {2, 2, 2, 3, 2, 2}; }   // mixed orders with their own specialised cores
+  else if (pat < 6 && (nd == 6 || profile == "C03" || r.coin())) { nd = 6; g.ord = {2, 2, 2, 5, 2, 2}; }
   else if (pat < 8) { int k = r.range(2, 3); for (auto& o : g.ord) o = k; }
   else for (auto& o : g.ord) o = r.range(0, 5);
   // shrink until the coefficient count fits
@@ -194,6 +194,15 @@ int main(int argc, char** argv) {
         fprintf(fc, "%s %s 0", profile == "C01" ? "V" : "B", prec); emit_xc();
         fprintf(fi, "%llu\n", (unsigned long long)(dbl ? call_value<double>(t, x.data(), c.data(), 0) : call_value<float>(t, x.data(), c.data(), 0)));
         stats[std::string("value_") + prec]++;
+        if (profile == "C01") {
+          // the same point through the other evaluation entry points (judged against the same exact value)
+          uint64_t ve = dbl ? cbits(t.get_evaluator<double>().ndsplineeval(x.data(), c.data(), 0)) : cbits(t.get_evaluator<float>().ndsplineeval(x.data(), c.data(), 0));
+          fprintf(fc, "U %s 0", prec); emit_xc(); fprintf(fi, "%llu\n", (unsigned long long)ve); stats["value_evaluator"]++;
+          if (!dbl) {
+            fprintf(fc, "U f 0"); emit_xc(); fprintf(fi, "%llu\n", (unsigned long long)cbits(ndsplineeval(&ct, x.data(), c.data(), 0))); stats["value_c_interface"]++;
+            fprintf(fc, "U f 0"); emit_xc(); fprintf(fi, "%llu\n", (unsigned long long)cbits(t(x.data()))); stats["value_call_operator"]++;
+          }
+        }
       } else if (profile == "C03" || profile == "C05") {
         auto X = [&](const char* what, uint64_t a, uint64_t b) { path_mismatch++; fprintf(fc, "X %s\n", what); fprintf(fi, "mismatch %llu %llu\n", (unsigned long long)a, (unsigned long long)b); };
         int mask = r.range(0, (1 << nd) - 1); if (r.coin(1, 3)) mask = 0;
